@@ -204,3 +204,13 @@ add("C09",
     "step; the model is compared with both twins.",
     "stated_not_proved: C09_refines lifted to the whole registry state (provided counts, extendors) and C09_rebuild — evaluated by the oracle.",
     "Lean 4 proof (nested containers refine a flat map, for the model's own container type) + differential correspondence + flat-map oracle", "6/C09")
+add("C15",
+    "Theorems: C15_get_history (after ANY well-formed history of interface creations, __bases__ reassignments and lookups that fill the _v_attrs memo, I.get(name) — "
+    "hence I[name], `name in I`, queryDescriptionFor — answers 'the description of the first interface along the current __iro__ that defines the name': invariant "
+    "WInv = C02's graph invariant + a consistent memo, preserved by every operation via step_untouched — what changed() does not visit keeps its cached order — and "
+    "sroFresh_congr), C15_agree / C15_present (namesAndDescriptions(all=True) binds every name exactly as get does; present iff some member of __iro__ defines it), "
+    "C15_tags / C15_tag_first, C15_invariants (every invariant along __iro__ runs in order; all failures collected, first raised), C15_follow (= C02_fresh), "
+    "C15_pinned_violates (README diamond, kernel-checked). The model with memo is compared with both twins on re-basing histories with warmed memos; all accessors "
+    "are cross-checked on the real objects and judged against the statement on an __iro__ computed by CPython's own MRO from the current bases.",
+    "Guards: G-acyclic, duplicate-free base lists, the root interface is never re-based.",
+    "Lean 4 proof (history invariant composing the memo invariant with C02's, dict-update lemma) + differential correspondence + statement oracle on CPython-MRO orders", "6/C15")
